@@ -48,6 +48,8 @@ fn decompress_stub(data: &[u8], _method: u8, expected: usize) -> Result<Vec<u8>>
     }
 }
 
+const ELEMENTWISE_IMAGE: bool = true;
+
 pub(crate) struct Cfg {
     pub compression: u8,
     pub encrypt: bool,
@@ -75,7 +77,12 @@ fn write_and_open(data: &[u8], name: &str, cfg: &Cfg) -> (crate::Archive, usize,
     let r = b.write_file(&mut out, &params);
     assert!(r.is_ok(), "write_file failed on valid input");
     let (stored, flags) = r.unwrap();
-    memfile::set_image(&out);
+    if ELEMENTWISE_IMAGE {
+        memfile::set_image_elementwise(&out);
+        unsafe { memfile::ELEMENTWISE = true; }
+    } else {
+        memfile::set_image(&out);
+    }
     let mut ht = HashTable::new(4).unwrap();
     let mut bt = BlockTable::new(1).unwrap();
     *bt.get_mut(0).unwrap() = BlockEntry {
@@ -109,7 +116,7 @@ fn roundtrip<const N: usize>(data: &[u8; N], name: &str, lookup: &str, cfg: &Cfg
 macro_rules! path_harness {
     ($name:ident, $body:block) => {
         #[kani::proof]
-        #[kani::unwind(12)]
+        #[kani::unwind(80)]
         #[kani::stub(std::fmt::format, vio::fmt_stub)]
         #[kani::stub(<std::fs::File as std::io::Read>::read, memfile::mem_read)]
         #[kani::stub(<std::fs::File as std::io::Read>::read_buf, memfile::mem_read_buf)]
@@ -150,7 +157,7 @@ single_unit!(c01d_su_enc_crc,          0, false, true,  false, true,  "a\\b.txt"
 macro_rules! multi_sector {
     ($name:ident, $comp:expr, $shrinks:expr, $enc:expr, $fix:expr, $crc:expr) => {
         #[kani::proof]
-        #[kani::unwind(132)]
+        #[kani::unwind(700)]
         #[kani::stub(std::fmt::format, vio::fmt_stub)]
         #[kani::stub(<std::fs::File as std::io::Read>::read, memfile::mem_read)]
         #[kani::stub(<std::fs::File as std::io::Read>::read_buf, memfile::mem_read_buf)]
@@ -204,7 +211,7 @@ path_harness!(c01d_absent_name_not_found, {
 });
 
 #[kani::proof]
-#[kani::unwind(12)]
+#[kani::unwind(80)]
 #[kani::stub(std::fmt::format, vio::fmt_stub)]
 #[kani::stub(<std::fs::File as std::io::Read>::read, memfile::mem_read)]
 #[kani::stub(<std::fs::File as std::io::Read>::read_buf, memfile::mem_read_buf)]
